@@ -337,17 +337,29 @@ Deser(P) ==
 \* =====================================================================================================
 \* The skeleton fixes order and arity of everything; the walk lists every value occurrence in the order
 \* of the skeleton (inputs, initializers, per node: inputs, outputs, nested graphs, then graph outputs).
+\* Every entry of a node's device configurations is part of the skeleton, in order (configuration name, stage,
+\* axes and devices of each sharding spec); the sharded values are occurrences of the walk (bound by identity).
 \* Two graphs are isomorphic when the skeletons are equal, the two walks have the same equality pattern
 \* (two occurrences are the same object on one side exactly when they are on the other: sharing between
 \* scopes, captured values resolved to the SAME outer object, a value listed twice) and corresponding
 \* values carry equal tokens.  Trailing empty-named outputs are absent optional outputs on both sides.
+\* node device configurations (only observed states carry them; the component is absent from model states):
+\* per node a sequence of [cfg: configuration name, stage: pipeline stage or -1, specs: Seq([v, axes, devs])]
+NodeDc(cs, n) == IF "ndc" \in DOMAIN cs THEN cs.ndc[n] ELSE <<>>
+DcSkel(cs, n) == [x \in DOMAIN NodeDc(cs, n) |->
+                    [ cfg |-> NodeDc(cs, n)[x].cfg, stage |-> NodeDc(cs, n)[x].stage,
+                      specs |-> [y \in DOMAIN NodeDc(cs, n)[x].specs |->
+                                   [axes |-> NodeDc(cs, n)[x].specs[y].axes, devs |-> NodeDc(cs, n)[x].specs[y].devs]] ]]
+DcVals(cs, n) == FlattenSeq([x \in DOMAIN NodeDc(cs, n) |->
+                    [y \in DOMAIN NodeDc(cs, n)[x].specs |-> NodeDc(cs, n)[x].specs[y].v]])
+
 RECURSIVE SkelOf(_, _, _)
 SkelOf(cs, g, d) ==
   [ nin |-> Len(cs.s.gIn[g]), ninit |-> Len(cs.s.gInit[g]), nout |-> Len(cs.s.gOut[g]), md |-> cs.gmd[g],
     nodes |-> [x \in DOMAIN cs.s.gNodes[g] |->
                  LET n == cs.s.gNodes[g][x] IN
                  [ name |-> NodeName(cs, n), nins |-> Len(cs.s.nIn[n]), nouts |-> Len(TrimOuts(cs, n)),
-                   attrs |-> cs.nat[n], md |-> cs.nmd[n],
+                   attrs |-> cs.nat[n], md |-> cs.nmd[n], dc |-> DcSkel(cs, n),
                    subs |-> IF d = 0 THEN <<>> ELSE [y \in DOMAIN cs.sub[n] |-> SkelOf(cs, cs.sub[n][y], d - 1)] ]] ]
 
 RECURSIVE WalkOf(_, _, _)
@@ -356,7 +368,7 @@ WalkOf(cs, g, d) ==     \* sequence of [v, role]
   R(cs.s.gIn[g], "in") \o R(InitValsOf(cs, g), "init")
   \o FlattenSeq([x \in DOMAIN cs.s.gNodes[g] |->
         LET n == cs.s.gNodes[g][x] IN
-        R(cs.s.nIn[n], "use") \o R(TrimOuts(cs, n), "def")
+        R(cs.s.nIn[n], "use") \o R(TrimOuts(cs, n), "def") \o R(DcVals(cs, n), "shard")
         \o (IF d = 0 THEN <<>> ELSE FlattenSeq([y \in DOMAIN cs.sub[n] |-> WalkOf(cs, cs.sub[n][y], d - 1)]))])
   \o R(cs.s.gOut[g], "out")
 
